@@ -1278,6 +1278,11 @@ class IRGenerator:
             if not isinstance(env, Environment):
                 raise InvalidSpec(
                     '%s is not a namespace.' % quote(type_ref.ns), *loc)
+            if type_ref.name in self.default_env:
+                # Built-in types belong to no namespace: 'ns.String' names
+                # nothing that ns defines.
+                raise InvalidSpec(
+                    'Symbol %s is undefined.' % quote(type_ref.name), *loc)
         if type_ref.name not in env:
             raise InvalidSpec(
                 'Symbol %s is undefined.' % quote(type_ref.name), *loc)
